@@ -194,6 +194,85 @@ let state_name_of_obs (o : string) : string =
       String.sub fp st (ident st - st)
   | _ -> raise (Bad ("obs " ^ o))
 
+
+(* ------------------------------------------------------------------------------------------ monitors *)
+
+let fc_of_string (s : string) : fcode =
+  match String.split_on_char ':' s with
+  | ["Q"; a; b] ->
+      (match req_from_byte (z_of_int (int_of_string b)) with
+       | Some r -> FcRequest ((match int_of_string a with 0 -> FcbFirst | 1 -> FcbHigh | 2 -> FcbLow | _ -> FcbInactive), r)
+       | None -> raise (Bad ("req " ^ b)))
+  | ["P"; a; b] ->
+      (match resp_state_from_byte (z_of_int (int_of_string a)), resp_status_from_byte (z_of_int (int_of_string b)) with
+       | Some st, Some s -> FcResponse (st, s)
+       | _ -> raise (Bad ("resp " ^ s)))
+  | _ -> raise (Bad ("fc " ^ s))
+
+let telegram_of_dots (s : string) : telegram =
+  match String.split_on_char '.' s with
+  | ["S"] -> TShortConf
+  | ["T"; da; sa] -> TToken (z_of_int (int_of_string da), z_of_int (int_of_string sa))
+  | ["D"; da; sa; dsap; ssap; fc; pdu] ->
+      TData ({ h_da = z_of_int (int_of_string da); h_sa = z_of_int (int_of_string sa);
+               h_dsap = opt_of_string dsap; h_ssap = opt_of_string ssap; h_fc = fc_of_string fc }, unhex pdu)
+  | _ -> raise (Bad ("telegram " ^ s))
+
+(* the implementation's call log; the wire bytes of a transmit are the poll's tx *)
+let calls_of_string (s : string) (tx : z list) : call list =
+  if s = "-" then [] else
+  List.map (fun c ->
+    let body = String.sub c 1 (String.length c - 1) in
+    match c.[0], String.split_on_char ':' body with
+    | 'T', [i; hp; "D"; _] -> CallTransmit (nat_of_int (int_of_string i), hp = "1", None)
+    | 'T', [i; hp; "S"; exp] -> CallTransmit (nat_of_int (int_of_string i), hp = "1", Some (tx, opt_of_string exp))
+    | 'R', i :: a :: rest -> CallReceiveReply (nat_of_int (int_of_string i), z_of_int (int_of_string a), telegram_of_dots (String.concat ":" rest))
+    | 'O', [i; a] -> CallHandleTimeout (nat_of_int (int_of_string i), z_of_int (int_of_string a))
+    | _ -> raise (Bad ("call " ^ c))) (String.split_on_char ',' s)
+
+let view_of_obs (o : string) : view =
+  match obs_fields o with
+  | [cr; ns; ps; las; act; _] ->
+      { v_conn = (match cr.[1] with '0' -> ConnOffline | '1' -> ConnPassive | _ -> ConnOnline);
+        v_in_ring = (cr.[3] = '1'); v_kind = kind_of_name (state_name_of_obs o);
+        v_ns = z_of_int (int_of_string ns); v_ps = z_of_int (int_of_string ps); v_las_valid = (las = "A");
+        v_active = (if act = "-" then [] else List.map (fun a -> z_of_int (int_of_string a)) (String.split_on_char ',' act)) }
+  | _ -> raise (Bad ("obs " ^ o))
+
+let rule_name = function
+  | R01_tx_while_busy -> "tx_while_busy" | R01_sync_pause -> "sync_pause" | R01_who_may_transmit -> "who_may_transmit"
+  | R01_check_pass_before_slot -> "check_pass_before_slot" | R01_claim_before_timeout -> "claim_before_timeout"
+  | R05_panic -> "panic" | R05_timeout -> "timeout"
+  | R06_no_claim_after_timeout -> "no_claim_after_timeout"
+  | R11_accept_while_listening -> "accept_while_listening" | R11_accept_without_token -> "accept_without_token"
+  | R11_accept_from_stranger -> "accept_from_stranger" | R11_retry_too_early -> "retry_too_early"
+  | R11_too_many_retries -> "too_many_retries" | R11_removed_too_early -> "removed_too_early"
+  | R11_heard_but_supervising -> "heard_but_supervising"
+  | R12_gap_poll_outside_gap -> "gap_poll_outside_gap" | R12_two_gap_polls_per_visit -> "two_gap_polls_per_visit"
+  | R12_reply_without_request -> "reply_without_request" | R12_reply_untruthful -> "reply_untruthful"
+  | R12_reply_from_wrong_state -> "reply_from_wrong_state"
+  | R13_low_prio_after_hold_time -> "low_prio_after_hold_time" | R13_second_cycle_after_hold_time -> "second_cycle_after_hold_time"
+  | R15_transmit_without_token -> "transmit_without_token" | R15_transmit_while_outstanding -> "transmit_while_outstanding"
+  | R15_round_robin -> "round_robin" | R15_reply_not_requested -> "reply_not_requested" | R15_reply_invalid -> "reply_invalid"
+  | R15_timeout_not_requested -> "timeout_not_requested" | R15_await_without_request -> "await_without_request"
+
+let pid_name = function PC01 -> "C01" | PC05 -> "C05" | PC06 -> "C06" | PC11 -> "C11" | PC12 -> "C12" | PC13 -> "C13" | PC15 -> "C15"
+
+let monitor_events (events : event list) : Model.event list =
+  List.map (fun ev ->
+    match ev with
+    | Api (name, obs) ->
+        EApi ((match name with "new" -> ApiNew | "on" -> ApiOnline | "off" -> ApiOffline | _ -> ApiPassive),
+              (if obs = "" then { v_conn = ConnOffline; v_in_ring = false; v_kind = KOffline; v_ns = Z0; v_ps = Z0;
+                                  v_las_valid = false; v_active = [] } else view_of_obs obs))
+    | Poll pr ->
+        let tx = if pr.txs = "-" then None else Some (unhex pr.txs) in
+        EPoll { s_now = z_of_int pr.now; s_busy = pr.busy; s_rx = unhex pr.rxs; s_tx = tx;
+                s_consumed = nat_of_int pr.consumed;
+                s_calls = calls_of_string pr.calls (match tx with Some b -> b | None -> []);
+                s_view = view_of_obs pr.obs }
+    | PanicEv _ -> EPanic) events
+
 let handle (case : string) (out : string) : unit =
   incr n_cases;
   let sections = List.map String.trim (String.split_on_char '/' case) in
@@ -273,4 +352,23 @@ let handle (case : string) (out : string) : unit =
          | PanicEv _ -> ())
   in
   go 0 events;
-  if not !diverged then count "outcome:replayed"
+  if not !diverged then count "outcome:replayed";
+  (* ---- monitors on the implementation's transcript ---- *)
+  (* a poll that panicked has no trustworthy outputs: drop it, keep the PANIC marker *)
+  let rec drop_panicked = function
+    | Poll _ :: (PanicEv _ as pe) :: tl -> pe :: drop_panicked tl
+    | e :: tl -> e :: drop_panicked tl
+    | [] -> [] in
+  let violated = monitor p (nat_of_int (List.length apps)) (monitor_events (drop_panicked events)) in
+  if violated = [] then count "monitors:ok"
+  else begin
+    let seen = Hashtbl.create 8 in
+    List.iter (fun (step, r) ->
+      let key = pid_name (rule_prop r) ^ " " ^ rule_name r in
+      if not (Hashtbl.mem seen key) then begin
+        Hashtbl.add seen key ();
+        count ("violated:" ^ pid_name (rule_prop r) ^ ":" ^ rule_name r);
+        report_fail (pid_name (rule_prop r)) (rule_name r) case
+          (Printf.sprintf "event %d: %s" (int_of_nat step) (try List.nth (String.split_on_char ';' out) (int_of_nat step) with _ -> "?"))
+      end) violated
+  end
